@@ -408,8 +408,9 @@ def judge_kernel(inp, obs, lr):
             if "err" in res:
                 return {"expected": "model answer", "observed": res, "tags": dict(tags, driver_err=res["err"])}
         r = {k: (float(F(v)) if isinstance(v, str) else v) for k, v in rr["ok"].items()}
-        if max(r["svd_recon"], r["svd_orth"]) > 1e-9 * 40:
-            return {"expected": "svd contract A = uΣvh, vh vhᵀ = 1", "observed": r, "tags": dict(tags, lapack_contract=True)}
+        if max(r["svd_recon"], r["svd_orth"]) > 1e-9 * 40 or not r["svd_sorted"] or r["svd_len"] != min(inp["m"], inp["n"]):
+            return {"expected": "svd contract A = uΣvh, u uᵀ = vh vhᵀ = 1, s ≥ 0 descending, len(s) = min(m,n)", "observed": r,
+                    "tags": dict(tags, lapack_contract=True)}
         if sel["ok"] != obs["N"][u]:
             return {"expected": {"selected rows of vh": sel["ok"]}, "observed": obs["N"][u], "tags": dict(tags, selection=True)}
         if max(r["ann"], r["orth"]) > 1e-9 * 40 or r["count"] != kd:
